@@ -24,6 +24,8 @@ func runC08(c *Ctx) {
 	r.Rule("R2-callback", "callback saves only after Validator(session.Email) && Authorize(session)", 1)
 	r.Rule("R3-auth-only", "202 only after authOnlyAuthorize(req, session)==true; authOnlyAuthorize / checkAllowed* structure", 10)
 	r.Rule("R7-domain-constraint-helper", "IsEndpointAllowed / isHostnameAllowed accepting paths used by the auth-only allowed_email_domains constraint (shared with C06.R4)", 3)
+	r.Rule("R8-allowed-groups-preserved", "the operator's allowed_groups reach ProviderData.AllowedGroups and are replaced afterwards only by a list known to be non-empty; no other overwrite of the map", 4)
+	r.Rule("R9-clear-expires-cookie", "clearing a refused session expires the ticket cookie on every path, also when the store delete fails (shared with C11.R2)", 9)
 	r.Rule("R6-rules-reload", "the rule-file watcher runs the reload action for every selected event and returns from waiting only after re-arming the watch", 2)
 	r.Rule("R5-email-validator", "accepting paths of the e-mail validator: end-anchored suffix tests at '@' or '.' boundaries; validator true only by domain rule, file or '*'", 2)
 	r.Rule("R4-authorize", "Provider.Authorize has one implementation, true only on empty AllowedGroups or membership", 2)
@@ -95,6 +97,8 @@ func runC08(c *Ctx) {
 	runC08R5(c)
 	runC08R6(c)
 	runRedirectValidators(c, "R7-domain-constraint-helper", false)
+	runC08R8(c, "R8-allowed-groups-preserved")
+	runManagerClearRule(c, "R9-clear-expires-cookie")
 
 	// ---- R4 ---------------------------------------------------------------------------------
 	rule = "R4-authorize"
@@ -624,4 +628,111 @@ func runWatcherReloadRule(c *Ctx, rule string) {
 			c.bad(rule, key, p.Exit, "WaitForReplacement can return without having re-added the watch: later rewrites of the file are never seen", p, p.End())
 		}
 	})
+}
+
+// runC08R8: the configured allowed-groups restriction cannot silently become empty. Authorize treats an
+// empty ProviderData.AllowedGroups as "no restriction", and newProviderDataFromConfig fills the map
+// from the operator's allowed_groups. Every other writer either adds to the map, or — if it REPLACES
+// it (setAllowedGroups, a direct store) — does so only with a list known to be non-empty on that path,
+// so that some restriction stays in force (the Google provider's `if len(opts.Groups) > 0` idiom).
+func runC08R8(c *Ctx, rule string) {
+	setAG := c.Fn(rule, "(*providers.ProviderData).setAllowedGroups")
+	fromCfg := c.Fn(rule, "providers.newProviderDataFromConfig")
+	agF := c.Field(rule, "providers.ProviderData.AllowedGroups")
+	cfgAGF := c.Field(rule, "pkg/apis/options.Provider.AllowedGroups")
+	if setAG == nil || fromCfg == nil || agF == nil || cfgAGF == nil {
+		return
+	}
+	// (a) the base: newProviderDataFromConfig installs the operator's list
+	{
+		key := "base|" + fnKey(fromCfg)
+		ok := false
+		for _, cs := range c.callersOf(setAG) {
+			if cs.Parent() != fromCfg {
+				continue
+			}
+			if v := unwrap0(cs.Common().Args[1]); walk.IsFieldLoad(v, cfgAGF) {
+				ok = true
+			} else if f, isF := v.(*ssa.Field); isF && walk.FieldOf(f.X.Type(), f.Field) == cfgAGF {
+				ok = true
+			}
+		}
+		if ok {
+			c.R.OK(rule, key, c.P.Pos(fromCfg.Pos()), "setAllowedGroups(providerConfig.AllowedGroups)")
+		} else {
+			c.R.Bad(rule, key, c.P.Pos(fromCfg.Pos()), "the provider is no longer initialised with the operator's allowed_groups", nil, nil)
+		}
+	}
+	// (b) every other replacement carries a non-empty list
+	nonEmpty := func(p *walk.Path, at int, list walk.DV) bool {
+		for _, a := range p.Atoms(at) {
+			b, ok := a.DV.V.(*ssa.BinOp)
+			if !ok || a.IsNil {
+				continue
+			}
+			isLen := func(v ssa.Value) bool {
+				call, ok := p.Resolve(p.Op(v, a.DV)).V.(*ssa.Call)
+				if !ok {
+					return false
+				}
+				bi, ok := call.Call.Value.(*ssa.Builtin)
+				return ok && bi.Name() == "len" && sameValueOrSlot(p, p.Op(call.Call.Args[0], p.Resolve(p.Op(v, a.DV))), list)
+			}
+			ky, yc := ConstInt(b.Y)
+			switch {
+			case b.Op == token.GTR && a.Val && isLen(b.X) && yc && ky >= 0:
+				return true
+			case b.Op == token.GEQ && a.Val && isLen(b.X) && yc && ky >= 1:
+				return true
+			case (b.Op == token.EQL || b.Op == token.NEQ) && !a.Val && isLen(b.X) && yc && ky == 0:
+				return true
+			}
+		}
+		return false
+	}
+	seenFn := map[*ssa.Function]bool{}
+	for _, cs := range c.callersOf(setAG) {
+		fn := cs.Parent()
+		if fn == fromCfg || seenFn[fn] {
+			continue
+		}
+		seenFn[fn] = true
+		c.Walk(rule, fn, func(p *walk.Path) {
+			for _, cl := range p.FindTop(walk.Static(setAG), p.End()) {
+				key := "replacement|" + fnKey(fn)
+				if nonEmpty(p, cl.Idx, p.Arg(cl, 1)) {
+					c.ok(rule, key, cl.In, "replaces the allowed groups only with a list known to be non-empty")
+				} else {
+					c.bad(rule, key, cl.In, "the operator's allowed_groups are replaced by a provider-specific list that may be empty: with only the global option set the map ends up empty and Authorize admits every session", p, cl.Idx)
+				}
+			}
+		})
+	}
+	// (c) direct stores to the field: only inside setAllowedGroups or as initialisation of a nil map
+	for _, ref := range c.fieldRefs(agF) {
+		if ref.Store == nil || ref.Fn == setAG {
+			continue
+		}
+		key := "field-store|" + fnKey(ref.Fn)
+		blk := ref.In.Block()
+		nilInit := false
+		for _, b := range ref.Fn.Blocks {
+			iff, ok := b.Instrs[len(b.Instrs)-1].(*ssa.If)
+			if !ok {
+				continue
+			}
+			bo, ok := iff.Cond.(*ssa.BinOp)
+			if !ok || bo.Op != token.EQL || !isNilConstV(bo.Y) || !walk.IsFieldLoad(bo.X, agF) {
+				continue
+			}
+			if b.Succs[0] == blk || b.Succs[0].Dominates(blk) {
+				nilInit = true
+			}
+		}
+		if nilInit {
+			c.ok(rule, key, ref.In, "initialises the map only when it is nil")
+		} else {
+			c.R.Bad(rule, key, c.pos(ref.In), "ProviderData.AllowedGroups is overwritten outside setAllowedGroups and not as a nil-map initialisation", nil, nil)
+		}
+	}
 }
